@@ -14,6 +14,8 @@ func verifHarness_C09_panic() {
 	p := verifChoice("pos", n)
 	after := verifChoice("afterNext", 2) == 1
 	hook := verifChoice("hook", 4) // 0 none, 1 does nothing, 2 status only, 3 status+body
+	onErr := verifChoice("onError", 3) // 0 no OnError handler, 1 installed, 2 installed and it is the crash point
+	addErr := verifChoice("addError", 2) == 1 || onErr == 2
 	code := 0
 	if hook >= 2 {
 		code = verifInt("code")
@@ -30,6 +32,14 @@ func verifHarness_C09_panic() {
 				lateEnter = true
 			}
 			tr.enter(i + 1)
+			if i == 0 && addErr && !second {
+				c.AddError(verifErr{})
+			}
+			if onErr == 2 {
+				c.Next()
+				tr.leave(i + 1)
+				return
+			}
 			if i == p && !after && !panicked {
 				panicked = true
 				panic(pv)
@@ -54,6 +64,21 @@ func verifHarness_C09_panic() {
 			}
 			if hook == 3 {
 				c.WriteString("E")
+			}
+		}
+	}
+	onErrRanAfterPanic := false
+	if onErr > 0 {
+		r.OnError = func(c *Context) {
+			if second {
+				return
+			}
+			if onErr == 2 {
+				panicked = true
+				panic(pv)
+			}
+			if panicked {
+				onErrRanAfterPanic = true
 			}
 		}
 	}
@@ -84,6 +109,7 @@ func verifHarness_C09_panic() {
 	}()
 	verifAssert(panicked, "the crash point was reached")
 	verifAssert(!lateEnter, "no handler starts after the panic")
+	verifAssert(!onErrRanAfterPanic, "the OnError handler does not run after a panic either")
 	if hook == 0 {
 		verifAssert(escaped == any(pv), "without a hook the panic propagates to the caller unchanged")
 	} else {
